@@ -161,9 +161,9 @@ def audit(prop_id: str, names: list[str]) -> dict:
     with BuildLock():
         rc, out = sh(["lake", "env", "lean", path], cwd=LEAN_DIR, timeout=900)
     res: dict[str, list[str]] = {}
-    for m in re.finditer(r"'([^']+)' depends on axioms: \[([^\]]*)\]", out):
+    for m in re.finditer(r"'(\S+)' depends on axioms: \[([^\]]*)\]", out):
         res[m.group(1)] = [a.strip() for a in m.group(2).replace("\n", " ").split(",") if a.strip()]
-    for m in re.finditer(r"'([^']+)' does not depend on any axioms", out):
+    for m in re.finditer(r"'(\S+)' does not depend on any axioms", out):
         res[m.group(1)] = []
     if rc != 0 and not res:
         raise Infra("axiom audit failed: " + out[-1500:])
